@@ -764,8 +764,6 @@ inline void comm::pack_lambda_broadcast(Lambda l, const PackArgs &...args) {
 
     int num_layers = c->layout().node_size() / c->layout().local_size() +
                      (c->layout().node_size() % c->layout().local_size() > 0);
-    int num_ranks_per_layer =
-        c->layout().local_size() * c->layout().local_size();
     int node_partner_offset = (c->layout().local_id() - c->layout().node_id()) %
                               c->layout().local_size();
 
@@ -775,18 +773,17 @@ inline void comm::pack_lambda_broadcast(Lambda l, const PackArgs &...args) {
       node_partner_offset += c->layout().local_size();
     }
 
-    // Only forward remotely if initial remote node exists
-    if (node_partner_offset < c->layout().node_size()) {
-      int curr_partner = c->layout().strided_ranks()[node_partner_offset];
-      for (int l = 0; l < num_layers; l++) {
-        if (curr_partner >= c->layout().size()) {
-          break;
-        }
-        if (!c->layout().is_local(curr_partner)) {
-          c->queue_message_bytes(packed_msg, curr_partner);
-        }
-
-        curr_partner += num_ranks_per_layer;
+    // Forward to the same-index rank of every node_partner_offset + l *
+    // local_size'th node. Look the partner up in the layout: rank arithmetic
+    // (partner + local_size^2) only holds for block placement of ranks.
+    for (int l = 0; l < num_layers; l++) {
+      int partner_node = node_partner_offset + l * c->layout().local_size();
+      if (partner_node >= c->layout().node_size()) {
+        break;
+      }
+      int curr_partner = c->layout().strided_ranks()[partner_node];
+      if (!c->layout().is_local(curr_partner)) {
+        c->queue_message_bytes(packed_msg, curr_partner);
       }
     }
 
